@@ -841,4 +841,26 @@ pub fn run(seed: u64, n: usize, out: &mut Out) {
         judge(&sc, &r, &line, out);
         out.bump("random_hostilekeys");
     }
+    // --- the hostile numeric lattice (`cmd::extreme_requests`: 2^31, 2^32, 2^33, 3 x 2^32, 2^53, 2^63-1, ... in EACH of
+    // max_burst, count_per_period, period, quantity, one field extreme at a time, plus all-extreme combinations), a
+    // quarter of it per scenario in turn, dealt to 1..3 clients, then a probe client on a fresh key (C11)
+    let ext = crate::cmd::extreme_requests();
+    for i in 0..(n / 10).max(4) {
+        let base = base_ts(&mut rng);
+        let nc = rng.range(1, 3) as usize;
+        let mut programs: Vec<Vec<Req>> = vec![vec![]; nc];
+        for (j, (field, b, c, p, q)) in ext.iter().enumerate() {
+            if j % 4 == i % 4 {
+                programs[(j / 4) % nc].push(Req { key: format!("x{i}_{field}"), b: *b, c: *c, p: *p, q: *q, ts: base + (j as i64) * 1_000_000_000 });
+            }
+        }
+        programs.retain(|p| !p.is_empty());
+        let probe = Req { key: format!("probe-x{i}"), b: 2, c: 1, p: 60, q: 1, ts: base + 100_000_000_000 };
+        let sc = Scenario { cap: rng.range(1, 4) as usize, store: StoreCfg::random(&mut rng), programs, probe: Some(probe), kind: "hostile" };
+        let mut r2 = rng.fork();
+        let r = execute(&sc, Policy::Random(&mut r2, 0), 0);
+        let line = emit(&sc, &r, out, &mut seen);
+        judge(&sc, &r, &line, out);
+        out.bump("random_hostilenums");
+    }
 }
